@@ -26,10 +26,10 @@ SPEC = dict(
     technique='libc interposition (virtual clock, scripted epoll_wait/send/recv), alive-flag tombstones, independent poll() oracle, TSan',
     exhaustive={Q: False, T: False},
     jobs=[
-        job('world', 'h_server_loop', 'world', cases={Q: 10000, T: 160000}, procs=16, sources=SRC),
+        job('world', 'h_server_loop', 'world', cases={Q: 30000, T: 160000}, procs=16, sources=SRC),
         job('equal-due', 'h_server_loop', 'equal-due', cases=-1, scale={Q: 10, T: 12}, procs=16, sources=SRC),
-        job('threads-plain', 'h_server_loop', 'threads', variant='plain', cases={Q: 300, T: 5000}, procs=8, weight=2, sources=SRC, timeout=600),
-        job('threads-tsan', 'h_server_loop', 'threads', variant='tsan', cases={Q: 300, T: 5000}, procs=8, weight=2, sources=SRC, timeout=600),
+        job('threads-plain', 'h_server_loop', 'threads', variant='plain', cases={Q: 900, T: 5000}, procs=8, weight=2, sources=SRC, timeout=600),
+        job('threads-tsan', 'h_server_loop', 'threads', variant='tsan', cases={Q: 900, T: 5000}, procs=8, weight=2, sources=SRC, timeout=600),
     ],
     floors={Q: dict(cases=11000, callbacks=2000000, timer_activations=1500000, timers_removed=80000, timers_removed_from_equal_run_of_3plus=40000, clients_removed=70000,
                     removed_with_selected_event=3000, onAccepted=30000, onConnected=12000, onAbolished=8000, independent_poll_checks=1500000, timer_due_checks=500000,
